@@ -31,11 +31,32 @@ META = {
     },
 }
 
-MANIFEST_TEXT = {
-    "C01": {
+MANIFEST_TEXT = {}
+MANIFEST_TEXT["C01"] = {
         "level_text": "Differential round-trip monitor over a class grid: every value class, null pattern, bitmap-boundary length, transport and residency named in the property is driven through the real ingestion and query path and each returned cell is compared with the supplied one; the codec signatures actually taken are recorded and required by a coverage floor. Exhaustive over the named classes, sampled inside each class.",
         "design_ref": "DESIGN.md section 3, C01",
         "level_note": "Trusted: harness model and generators; the wire encoder written against the capnp schema. Values inside a class are sampled (seeded).",
         "technique": "runtime differential monitor (cell-by-cell vs reference model) + panic/hang monitors + codec coverage monitor",
-    },
+    }
+
+
+TOL = [
+    "T-FLOATSUM float SUM/AVG compared with relative tolerance 1e-9 * sum|x|; T-AVG integer AVG may be truncated or exact; T-TIES rows tying on all ORDER BY keys in any order; T-EMPTYAGG aggregates over zero filtered rows give zero groups.",
+    "T-ERR: an error *value* (TypeError, NotImplemented, FatalError) makes no claim; statement shapes the engine rejects on the canonical realisation (one partition, dense, non-null) are outside the fragment (capability probe).",
+    "T-INTFLOAT int/float comparisons are decided after `int as f64`; statements where the exact answer differs are not judged.",
+]
+
+META["C03"] = {
+    "level": "exploration",
+    "rule": "Tables with one column per encoding (u8/u16/u32 with and without offset, i64, delta, float, dictionary / packed / hex strings, nullable variants, columns absent from some partitions), 1-4 partitions, last batch optionally unflushed, some cases cold on disk. Predicates: col op const / const op col / col op col for the six comparison operators over int, float and string with constants below/at/inside/above the column range and outside the narrow encoding, IS [NOT] NULL, LIKE, regex, NOT and AND/OR trees of depth <= 3. One evaluation = SELECT id [,col] FROM t WHERE p compared as a sequence of ids with the three-valued reference evaluator. Distinct non-trivial = distinct (predicate label: operators, operand type pairs, constant position classes, nullability; codec signature of the first referenced column) whose reference answer is neither empty nor the whole table and on which engine and reference agree. Disagreements are shrunk to a minimal statement before being classified.",
+    "budget": {"quick": 100, "thorough": 1200},
+    "relfast": True,
+    "floors": {"quick": {"evaluations": 3000, "distinct": 300, "counters": {"nontrivial_agree": 400}}},
+    "assumptions": COMMON_ASSUMPTIONS + TOL,
+}
+MANIFEST_TEXT["C03"] = {
+    "level_text": "Differential monitor: thousands of generated predicates per run are executed by the real engine on tables that force every encoding, and the returned row ids are compared with a three-valued reference evaluation; constants are placed at the edges of and outside each column's encoded range. Sampling within an exhaustive operator x type x constant-class grid.",
+    "design_ref": "DESIGN.md section 3, C03",
+    "level_note": "Trusted: the reference evaluator (sql.rs) and the capability probe rule. Known engine defects are diagnosed on the minimal failing statement and listed in known_findings.jsonl.",
+    "technique": "runtime differential monitor against a reference SQL evaluator, with statement shrinking and panic/hang monitors",
 }
